@@ -141,6 +141,9 @@ impl Node {
                 let _ = self
                     .in_use
                     .compare_exchange(NODE_COOLDOWN, NODE_UNUSED, Relaxed, Relaxed);
+            } else {
+                #[cfg(arc_swap_verif)]
+                verif_rt::probe(verif_rt::probes::COOLDOWN_BLOCKED, false);
             }
         }
     }
